@@ -661,6 +661,20 @@ func (x *decoX) decsBlock(s *ast.IfStmt, g gctx) bool {
 				}
 			}
 		}
+		// the unconditional form: out.Decs.X = nd["X"] (a missing key reads as the nil list, which
+		// is what the field holds anyway)
+		if as, ok := inner.(*ast.AssignStmt); ok && !good && as.Tok == token.ASSIGN && len(as.Lhs) == 1 && len(as.Rhs) == 1 {
+			if iix, ok := as.Rhs[0].(*ast.IndexExpr); ok {
+				if base, ok := iix.X.(*ast.Ident); ok && c.ObjOf(base) == ndObj {
+					if name, ok := StringLit(iix.Index); ok {
+						if field, ok := c.Path(as.Lhs[0], x.out); ok {
+							x.emit(Event{Kind: KDec, Name: name, Field: field, Src: "decorations[" + key + "]"}, g, as.Pos())
+							good = true
+						}
+					}
+				}
+			}
+		}
 		if !good {
 			x.emit(Event{Kind: KOpaque, Expr: "unrecognised statement in decorations block"}, g, inner.Pos())
 		}
